@@ -33,7 +33,8 @@ def _spd(d, rs, cond):
 
 def strat_lik(tier):
     return st.fixed_dictionaries({
-        'variant': st.sampled_from(['standard', 'standard', 'whitened', 'warton', 'glasso', 'unbiased', 'unbiased', 'misspec-mean', 'misspec-variance']),
+        'variant': st.sampled_from(['standard', 'standard', 'whitened', 'warton', 'glasso', 'whitened-warton', 'whitened-glasso',
+                                    'unbiased', 'unbiased', 'misspec-mean', 'misspec-variance']),
         'n': st.integers(10, 300), 'd': st.integers(1, 5), 'seed': st.integers(0, 10 ** 6), 'cond': st.sampled_from([1.0, 10.0, 100.0]),
         'far': st.sampled_from([0.0, 0.5, 2.0, 8.0]), 'penalty': st.sampled_from([0.0, 0.1, 0.5, 0.9, 1.0]),
         'glasso_penalty': st.sampled_from([0.0, 0.05, 0.3]),
@@ -74,7 +75,7 @@ def run_lik(case):
     logging.getLogger('elfi').setLevel(logging.ERROR)
     n, d, variant = case['n'], case['d'], case['variant']
     n = max(n, d + 6)
-    if variant == 'glasso' and d == 1:
+    if variant in ('glasso', 'whitened-glasso') and d == 1:
         d = 2                   # sklearn's graphical lasso needs at least two features
     rs = np.random.RandomState(case['seed'])
     mu = rs.randn(d) * 2
@@ -94,6 +95,24 @@ def run_lik(case):
         fn = pm.standard_likelihood(whitening=W)
         Xw = X.dot(W.T)
         ref = ref_mvn(W.dot(y), Xw.mean(axis=0), np.atleast_2d(np.cov(Xw, rowvar=False)))
+    elif variant in ('whitened-warton', 'whitened-glasso'):
+        # whitening and shrinkage together: the summaries are whitened first, the shrinkage acts on the whitened covariance
+        W = _spd(d, rs, 10.0) + 0.3 * rs.randn(d, d) * (d > 1)
+        Xw = X.dot(W.T)
+        Sw = np.atleast_2d(np.cov(Xw, rowvar=False))
+        if variant == 'whitened-warton':
+            pen = case['penalty']
+            fn = pm.standard_likelihood(shrinkage='warton', penalty=pen, whitening=W)
+            g = 1 - pen
+            Dm = np.sqrt(np.diag(Sw) + 1e-5)
+            ref = ref_mvn(W.dot(y), Xw.mean(axis=0), np.outer(Dm, Dm) * (g * (Sw / np.outer(Dm, Dm)) + (1 - g) * np.eye(d)))
+            tol = 1e-8
+        else:
+            from sklearn.covariance import graphical_lasso
+            pen = max(case['glasso_penalty'], 0.05)
+            fn = pm.standard_likelihood(shrinkage='glasso', penalty=pen, whitening=W)
+            ref = ref_mvn(W.dot(y), Xw.mean(axis=0), graphical_lasso(Sw, alpha=pen, max_iter=200)[0])
+            tol = 1e-7
     elif variant == 'warton':
         pen = case['penalty']
         fn = pm.standard_likelihood(shrinkage='warton', penalty=pen)
@@ -315,6 +334,8 @@ def strat_mh(tier):
         'transform': st.sampled_from(['all', 'all', 'none']),
         'n': st.integers(3, 30), 'n_sim_round': st.sampled_from([2, 4, 6]), 'bs_div': st.sampled_from([1, 2]),
         'sigma': st.sampled_from([0.05, 0.3, 1.0, 3.0]), 'seed': st.integers(0, 2 ** 31 - 1), 'obs': st.sampled_from([0.0, 1.0, 3.0]),
+        # the order in which sample(param_names=...) lists the parameters (None = model order)
+        'order': st.one_of(st.none(), st.permutations([0, 1, 2])),
     })
 
 
@@ -343,6 +364,14 @@ def run_mh(case):
             ps.append(elfi.Prior('norm', 1.0, 1.0, model=m, name=nm))
             dists.append(lambda x: ss.norm(1.0, 1.0).logpdf(x))
     S = elfi.Simulator(mh_sim, *ps, observed=np.full((1, 2), case['obs']), model=m, name='S')
+    param_names = None
+    if case.get('order') is not None and k > 1:
+        perm = [i for i in case['order'] if i < k]
+        if perm != list(range(k)):
+            param_names = [names[i] for i in perm]
+            types = [types[i] for i in perm]
+            dists = [dists[i] for i in perm]
+            bound = bound[perm]
     elfi.Summary(summ0, S, model=m, name='s0')
     elfi.Summary(summ1, S, model=m, name='s1')
     n, nsr = case['n'], case['n_sim_round']
@@ -350,14 +379,15 @@ def run_mh(case):
     sigma = np.eye(k) * case['sigma'] ** 2
     params0 = np.array([1.0] * k)
     use_tr = case['transform'] == 'all'
-    ctx = 'bound types=%r transform=%s n=%d n_sim_round=%d batch_size=%d sigma=%r seed=%d' % (types, case['transform'], n, nsr, bs, case['sigma'], case['seed'])
+    ctx = 'bound types=%r param_names=%r transform=%s n=%d n_sim_round=%d batch_size=%d sigma=%r seed=%d' % (types, param_names, case['transform'], n, nsr, bs, case['sigma'], case['seed'])
     LOG['sim'] = 0
     LOG['lik'] = []
     with must_not_raise(P, 'BSL.sample; ' + ctx):
         with np.errstate(all='ignore'):
             bsl = elfi.BSL(m, nsr, ['s0', 's1'], likelihood=stub_likelihood, seed=case['seed'], batch_size=bs)
             with time_limit(300, 'C20:bsl-hangs', 'BSL.sample'):
-                res = bsl.sample(n, sigma, params0=params0.copy(), logit_transform_bound=[tuple(b) for b in bound] if use_tr else None, bar=False)
+                res = bsl.sample(n, sigma, params0=params0.copy(), param_names=param_names,
+                                 logit_transform_bound=[tuple(b) for b in bound] if use_tr else None, bar=False)
     chain = np.array(bsl.state['params'])
     liks = list(LOG['lik'])
     nsim_calls = LOG['sim']
@@ -421,6 +451,8 @@ def run_mh(case):
                         % (kbad, chain[kbad].tolist(), ref[kbad].tolist(), ctx))
     arr = np.asarray(res.samples_array) if hasattr(res, 'samples_array') else None
     labels = ['transform=' + case['transform'], 'types=' + '+'.join(sorted(set(types)))]
+    if param_names is not None:
+        labels.append('param_names-in-another-order')
     if n_out:
         labels.append('proposal-outside-prior-support')
     kinds = set(types)
